@@ -17,7 +17,9 @@ WellFormed(it) ==
   /\ "" \notin nts
   /\ it.root \in nts
   /\ \A k \in DOMAIN it.rules : /\ it.rules[k].l \in nts
-                                /\ \A x \in SetOfSeq(it.rules[k].r) : x \in nts \cup ts \cup {"error"}
+                                \* a symbol of a rule is a term OBJECT or a nonterminal OBJECT: it must be declared among
+                                \* its own kind (a declared nonterminal of the same name does not declare a term)
+                                /\ \A x \in SetOfSeq(it.rules[k].r) : IF x.k = "n" THEN x.s \in nts ELSE x.s \in ts \cup {"error"}
 
 VARIABLE wx
 Init == wx \in 1..Len(Items)
